@@ -6,7 +6,7 @@ known findings) is a FALSE ALARM / brittleness of the checker and is printed.  N
 usage: try_neutral.py [--src=/tmp/neu/out] [-j N] [--save [--tag=r2]]     (--save copies confirmed-neutral patches to /verif/neutral/)"""
 import concurrent.futures as cf, glob, json, os, shutil, subprocess, sys, tempfile
 VERIF = os.path.dirname(os.path.dirname(os.path.abspath(__file__)))
-PROPS = [f"C{n:02d}" for n in range(1, 21)]
+PROPS = os.environ.get("VSA_PROPS", "").split() or [f"C{n:02d}" for n in range(1, 21)]
 src = next((a.split("=")[1] for a in sys.argv if a.startswith("--src=")), "/tmp/neu/out")
 jobs = int(sys.argv[sys.argv.index("-j") + 1]) if "-j" in sys.argv else 10
 only = [a for a in sys.argv[1:] if a.startswith("C") and len(a) == 3]
